@@ -297,7 +297,8 @@ def _special_x0(rng, g, D, cons, x0, mode):
 
 def gen_options(rng, D, prof, noise_mode):
     o = {}
-    o["random_seed"] = rng.randrange(0, 2**31 - 1)
+    # boundary seeds (0 is a valid and popular seed) in one run out of eight
+    o["random_seed"] = rng.randrange(0, 2**31 - 1) if rng.random() < 0.875 else _choice(rng, [0, 0, 1, 2**31 - 2, 2**32 - 1])
     bmax = prof.get("budget_max", 120)
     bmin = prof.get("budget_min", 12)
     bkind = _choice(rng, prof.get("budget_kinds", ["small", "mid", "mid", "large"]))
@@ -342,6 +343,9 @@ def gen_options(rng, D, prof, noise_mode):
     maybe("search_method", 0.15, lambda: _choice(rng, [[["ES-ell", 1]], [["ES-wcm", 1]], [["ES-wcm", 1], ["ES-ell", 1], ["ES-wcm", 0]],
                                                         [["ES-ell", 0], ["ES-wcm", 1], ["ES-ell", 1], ["ES-wcm", 0]]]))
     maybe("force_poll_mesh", 0.12, lambda: True)
+    # options that gate rarely taken branches of the GP refit code
+    maybe("gp_warnings", 0.12, lambda: True)
+    maybe("double_refit", 0.08, lambda: True)
     maybe("nonlinear_scaling", 0.1, lambda: False)
     maybe("tol_fun", 0.1, lambda: _choice(rng, [1e-2, 1e-4, 1e-6]))
     maybe("tol_stall_iters", 0.15, lambda: rng.randrange(1, 6))
